@@ -268,6 +268,10 @@ def nonlinear_constraints(rng, n, x0, count=None, forms=("nlc",),
         if form != "nlc" and rng.random() < 0.5:
             # dict constraint with an extra argument: fun(x, a) = c(x) + a
             ent["cargs"] = [float(np.round(rng.uniform(-0.5, 0.5), 3))]
+            # ... given as a tuple, or bare (a float / a 0-d array): a single
+            # extra argument need not be wrapped
+            ent["cargs_form"] = str(rng.choice(["tuple", "tuple", "float",
+                                                "array"]))
         out.append(ent)
     return out
 
